@@ -166,6 +166,9 @@ fn enum_type<'a>(input: &mut &'a [u8]) -> ModalResult<Type<'a>, InputError<&'a [
 /// Parse an inline type (struct or enum).
 /// Determines if it's a struct by looking for ':' character.
 fn inline_type<'a>(input: &mut &'a [u8]) -> ModalResult<Type<'a>, InputError<&'a [u8]>> {
+    if !input.starts_with(b"(") {
+        return Err(ErrMode::Backtrack(ParserError::from_input(input)));
+    }
     // Look ahead to see if this contains a colon (indicating struct)
     if let Some(pos) = input.iter().position(|&b| b == b')') {
         let content = &input[1..pos]; // Skip opening paren
